@@ -211,9 +211,11 @@ func (conn *Conn) send(call *Call) {
 	seq := conn.seq
 	var isStreaming bool
 	var closeStreaming bool
+	var openStreaming bool
 	if call.upgrade.Stream > 0 {
 		switch call.upgrade.Stream {
 		case openStream:
+			openStreaming = true
 			call.stream.seq = seq
 			conn.streams[seq] = call
 		case streaming:
@@ -242,13 +244,20 @@ func (conn *Conn) send(call *Call) {
 	ctx.ServiceMethod = call.ServiceMethod
 	err := conn.codec.WriteRequest(&ctx, call.Args)
 	if err != nil {
+		// The call may already have been completed by a response or by the
+		// reader's final sweep while the write was in progress: only the path
+		// that removes it from pending may complete it.
+		registered := isStreaming
 		conn.mutex.Lock()
-		delete(conn.pending, seq)
-		if call.upgrade.Stream == openStream {
-			delete(conn.streams, seq)
+		if c, ok := conn.pending[seq]; ok && c == call {
+			registered = true
+			delete(conn.pending, seq)
+			if openStreaming {
+				delete(conn.streams, seq)
+			}
 		}
 		conn.mutex.Unlock()
-		if call != nil {
+		if registered {
 			call.Error = err
 			call.done()
 		}
@@ -283,11 +292,13 @@ func (conn *Conn) recv() {
 	if err == io.EOF {
 		err = ErrShutdown
 	}
-	for _, call := range conn.pending {
+	for seq, call := range conn.pending {
+		delete(conn.pending, seq)
 		call.Error = err
 		call.done()
 	}
-	for _, call := range conn.streams {
+	for seq, call := range conn.streams {
+		delete(conn.streams, seq)
 		if call.stream != nil {
 			call.stream.stop()
 		}
